@@ -88,7 +88,7 @@ R1 = REG.add(Contract(
             "provisional_null": OBJ, "provisional_delimiter": OBJ},
     requires=lambda c: LI.shape(c, selfname="sct_items") + [("title-has-a-letter", z3.Length(c.a["section_title"].t) >= 2)],
     ensures=r1_post,
-    verify_with=block_verifier("las.LASFile.read", 'if section_title[1].upper() == "V":', 'if section_title[1].upper() == "W":', "las"),
+    verify_with=block_verifier("las.LASFile.read", 'if section_title[1].upper() == "V":', 2, "las"),
     properties=("C05", "C19", "C06"), may_raise=["AttributeError"]))
 R1.note = ("sct_items.VERS is attribute access through SectionItems.__getattr__ (contract: AttributeError exactly when no item matches), "
            "guarded by the preceding `in` test")
@@ -685,7 +685,7 @@ def r0_post(c):
 
 def r0_blocks(E):
     out = []
-    for bc, start, end, hook in ((R1, 'if section_title[1].upper() == "V":', 'if section_title[1].upper() == "W":', None),
+    for bc, start, end, hook in ((R1, 'if section_title[1].upper() == "V":', 2, None),
                                  (R2, "if (", "self.sections[section_title[1:]] = sct_items", _mark("$routed")),
                                  (R3, "file_obj.seek(k)", 'sct_contents = "\\n".join(contents)', _mark("$other_read"))):
         blk, _ = BL.find_block(E, "las.LASFile.read", start, end, 0)
